@@ -32,21 +32,22 @@ static std::vector<WritePlan> rounds;
 // ---- side-channel records ----
 enum { REC_NODE = 1, REC_EDGE, REC_MIRROR, REC_PRE, REC_POST, REC_INFO };
 struct Rec { uint32_t kind, host, a, b, c, d; };
+static bool cusp_async = true; static uint32_t cusp_rounds = 100, node_w = 0, edge_w = 0; static int read_policy = 1;   // drawn per run: the partitioner's own options
 static void put(uint32_t kind, uint32_t host, uint32_t a, uint32_t b = 0, uint32_t c = 0, uint32_t d = 0) { Rec r{kind, host, a, b, c, d}; vsim_side_put(&r, sizeof r); }
 
 static std::unique_ptr<Graph> partition() {
   using namespace galois;
   switch (policy) {
-  case 0: return cuspPartitionGraph<NoCommunication, NodeData, uint32_t>(path, CUSP_CSR, CUSP_CSR, false, tpath);
-  case 1: return cuspPartitionGraph<NoCommunication, NodeData, uint32_t>(path, CUSP_CSC, CUSP_CSR, false, tpath);
-  case 2: return cuspPartitionGraph<GenericHVC, NodeData, uint32_t>(path, CUSP_CSR, CUSP_CSR, false, tpath);
-  case 3: return cuspPartitionGraph<GenericCVC, NodeData, uint32_t>(path, CUSP_CSR, CUSP_CSR, false, tpath);
-  case 4: return cuspPartitionGraph<GenericCVCColumnFlip, NodeData, uint32_t>(path, CUSP_CSR, CUSP_CSR, false, tpath);
-  case 5: return cuspPartitionGraph<GingerP, NodeData, uint32_t>(path, CUSP_CSR, CUSP_CSR, false, tpath);
-  case 6: return cuspPartitionGraph<FennelP, NodeData, uint32_t>(path, CUSP_CSR, CUSP_CSR, false, tpath);
-  case 7: return cuspPartitionGraph<SugarP, NodeData, uint32_t>(path, CUSP_CSR, CUSP_CSR, false, tpath);
-  case 8: return cuspPartitionGraph<NoCommunication, NodeData, uint32_t>(path, CUSP_CSR, CUSP_CSR, true, tpath);
-  default: return cuspPartitionGraph<GenericCVC, NodeData, uint32_t>(path, CUSP_CSR, CUSP_CSC, false, tpath);
+  case 0: return cuspPartitionGraph<NoCommunication, NodeData, uint32_t>(path, CUSP_CSR, CUSP_CSR, false, tpath, "", cusp_async, cusp_rounds, (galois::graphs::MASTERS_DISTRIBUTION)read_policy, node_w, edge_w);
+  case 1: return cuspPartitionGraph<NoCommunication, NodeData, uint32_t>(path, CUSP_CSC, CUSP_CSR, false, tpath, "", cusp_async, cusp_rounds, (galois::graphs::MASTERS_DISTRIBUTION)read_policy, node_w, edge_w);
+  case 2: return cuspPartitionGraph<GenericHVC, NodeData, uint32_t>(path, CUSP_CSR, CUSP_CSR, false, tpath, "", cusp_async, cusp_rounds, (galois::graphs::MASTERS_DISTRIBUTION)read_policy, node_w, edge_w);
+  case 3: return cuspPartitionGraph<GenericCVC, NodeData, uint32_t>(path, CUSP_CSR, CUSP_CSR, false, tpath, "", cusp_async, cusp_rounds, (galois::graphs::MASTERS_DISTRIBUTION)read_policy, node_w, edge_w);
+  case 4: return cuspPartitionGraph<GenericCVCColumnFlip, NodeData, uint32_t>(path, CUSP_CSR, CUSP_CSR, false, tpath, "", cusp_async, cusp_rounds, (galois::graphs::MASTERS_DISTRIBUTION)read_policy, node_w, edge_w);
+  case 5: return cuspPartitionGraph<GingerP, NodeData, uint32_t>(path, CUSP_CSR, CUSP_CSR, false, tpath, "", cusp_async, cusp_rounds, (galois::graphs::MASTERS_DISTRIBUTION)read_policy, node_w, edge_w);
+  case 6: return cuspPartitionGraph<FennelP, NodeData, uint32_t>(path, CUSP_CSR, CUSP_CSR, false, tpath, "", cusp_async, cusp_rounds, (galois::graphs::MASTERS_DISTRIBUTION)read_policy, node_w, edge_w);
+  case 7: return cuspPartitionGraph<SugarP, NodeData, uint32_t>(path, CUSP_CSR, CUSP_CSR, false, tpath, "", cusp_async, cusp_rounds, (galois::graphs::MASTERS_DISTRIBUTION)read_policy, node_w, edge_w);
+  case 8: return cuspPartitionGraph<NoCommunication, NodeData, uint32_t>(path, CUSP_CSR, CUSP_CSR, true, tpath, "", cusp_async, cusp_rounds, (galois::graphs::MASTERS_DISTRIBUTION)read_policy, node_w, edge_w);
+  default: return cuspPartitionGraph<GenericCVC, NodeData, uint32_t>(path, CUSP_CSR, CUSP_CSC, false, tpath, "", cusp_async, cusp_rounds, (galois::graphs::MASTERS_DISTRIBUTION)read_policy, node_w, edge_w);
   }
 }
 
@@ -120,6 +121,9 @@ int main() {
   policy = (int)vsim_param("policy", 0, NPOL - 1);
   mode = (int)vsim_param_fixed("mode", 0);
   commmode = (int)vsim_param("commmode", 0, 4); partition_agnostic = (int)vsim_param("partition_agnostic", 0, 3) == 0;
+  read_policy = (int)vsim_param("read_policy", 0, 2);   // BALANCED_MASTERS / BALANCED_EDGES_OF_MASTERS / BALANCED_MASTERS_AND_EDGES
+  cusp_async = vsim_param("cusp_async", 0, 1) != 0; { static const uint32_t rr[] = {1, 3, 100}; cusp_rounds = rr[vsim_param("cusp_rounds", 0, 2)]; }
+  if (read_policy == 2 && vsim_param("weights", 0, 1)) { node_w = (uint32_t)vsim_param("node_w", 1, 5); edge_w = (uint32_t)vsim_param("edge_w", 1, 5); }
   vsim_note("component", "%s policy=%s hosts=%d", mode ? "gluon-sync" : "partition", pol_names[policy], nhosts);
   vsim_enable_fault(VF_MSG_DELAY, 0.05, 0.6);
   vsim_enable_fault(VF_IPROBE_MISS, 0.05, 0.5);
@@ -128,7 +132,7 @@ int main() {
   vsim_enable_fault(VF_CLOCK_JUMP, 0.001, 0.05);
   vsim_set_budget(6000000);
   // ---- input graph (unique edge data so every edge is identifiable) ----
-  model = gr::generate(tier() ? 300 : 60, true);
+  model = gr::generate(tier() ? 120 : 60, true);
   if (model.n == 0) { model.n = 1; model.end.assign(1, 0); }
   if (policy >= 5 && policy <= 7 && model.edges.empty()) {
     // streaming policies divide by the global edge count: a graph without edges turns every score into NaN, no host wins
